@@ -261,7 +261,7 @@ func zero(t types.Type) value {
 		}
 		return s
 	case *types.Chan:
-		return chan value(nil)
+		return (*ichan)(nil)
 	case *types.Map:
 		return (*omap)(nil)
 	case *types.Signature:
@@ -866,13 +866,17 @@ func eqnil(t types.Type, x, y value) bool {
 	return equals(t, x, y)
 }
 
+// unopFrame is the frame executing the current unary operation (the channel
+// receive needs it to decide whether it is a scheduling point).
+var unopFrame *frame
+
 func unop(instr *ssa.UnOp, x value) value {
 	if s, ok := x.(sym); ok {
 		return symUnop(instr.Op, s)
 	}
 	switch instr.Op {
 	case token.ARROW: // receive
-		v, ok := <-x.(chan value)
+		v, ok := sched.recv(unopFrame, x.(*ichan))
 		if !ok {
 			v = zero(instr.X.Type().Underlying().(*types.Chan).Elem())
 		}
@@ -1011,7 +1015,7 @@ func callBuiltin(caller *frame, fn *ssa.Builtin, args []value) value {
 		return jcopy(args[0].([]value), src.([]value))
 
 	case "close": // close(chan T)
-		close(args[0].(chan value))
+		sched.closeChan(caller, args[0].(*ichan))
 		return nil
 
 	case "delete": // delete(map[K]value, K)
@@ -1050,8 +1054,11 @@ func callBuiltin(caller *frame, fn *ssa.Builtin, args []value) value {
 			return len(x)
 		case *omap:
 			return x.len()
-		case chan value:
-			return len(x)
+		case *ichan:
+			if x == nil {
+				return 0
+			}
+			return len(x.buf)
 		default:
 			panic(fmt.Sprintf("len: illegal operand: %T", x))
 		}
@@ -1064,8 +1071,11 @@ func callBuiltin(caller *frame, fn *ssa.Builtin, args []value) value {
 			return cap((*x).(array))
 		case []value:
 			return cap(x)
-		case chan value:
-			return cap(x)
+		case *ichan:
+			if x == nil {
+				return 0
+			}
+			return x.cap
 		default:
 			panic(fmt.Sprintf("cap: illegal operand: %T", x))
 		}
